@@ -68,6 +68,7 @@ def floors(tier):
     if tier == 'quick':
         f.update({'subcase:judged': 250, 'probe:strong': 180, 'build:make': 100,
                   'calibration:reference-build': 450,
+                  'probe:pair-vs-reference': 30,
                   'distinct_nontrivial': 180, 'lang:c': 120, 'lang:c++': 120})
     else:
         f.update({'subcase:judged': 3000, 'probe:strong': 500,
@@ -225,6 +226,26 @@ def gen_subs(tier, seed):
             for place in places_for(opt, val, site):
                 subs.append({'compiler': 'gcc', 'lang': 'f95',
                              'items': [_item(opt, val, place)]})
+    # ---- quick: the implicit -fPIC of shared-library objects paired with every
+    # compile-site option ON THE SAME shared_library target (options that are
+    # forwarded to sibling steps - precompiled headers, includes ... - must
+    # agree with it).  Per-target placements, so that they pack.
+    if tier == 'quick':
+        for compiler in compilers:
+            for lang in ('c', 'c++'):
+                n = 0
+                for a in compile_atoms(lang, 'quick'):
+                    if a == ('pch', 'two-sources') or a[0] in ('pic', 'static'):
+                        continue
+                    if a[0] == 'warning' and a[1] != 'all+error':
+                        continue
+                    pl = [x for x in places_for(a[0], a[1], 'compile')
+                          if x in ('target', 'object', 'kwarg_c')]
+                    n += 1
+                    place = pl[(n + seed) % len(pl)]
+                    subs.append({'compiler': compiler, 'lang': lang,
+                                 'items': [_item(a[0], a[1], place),
+                                           _item('pic', 'implicit', 'shlib')]})
     # ---- pairs
     if tier == 'thorough':
         for compiler in compilers:
@@ -363,9 +384,10 @@ def render_sub(sub, src):
     files = [tag + '_m' + ext]
     if 'aux' in f:
         if 'shlib' in f:
-            lines.append('%s_s = shared_library(%s, files=[%s], compile_options=%s%s)'
+            lines.append('%s_s = shared_library(%s, files=[%s], compile_options=%s%s%s)'
                          % (tag, q(tag + '_s'), q(tag + '_a' + ext), cl,
-                            ', ' + inc if inc else ''))
+                            ', ' + inc if inc else '',
+                            ', pch=' + q(tag + '_prea.h') if pch else ''))
             lines.append('vf_all.append(%s_s)' % tag)
             libs.append(tag + '_s')
         elif 'fwd' in f:
@@ -503,6 +525,12 @@ def bfg_layout(bld, index, sub, shape, make_out):
         lay['gch'] = cand[0] if cand else os.path.join(bld, tag + '_pre.h.gch')
     if 'shlib' in f:
         lay['lib'] = os.path.join(bld, 'lib%s_s.so' % tag)
+        if 'pch' in f:
+            cand = [p for n, p in index.items()
+                    if n.startswith(tag + '_prea.h.') and
+                    n.endswith(('.gch', '.pch'))]
+            lay['gch_a'] = cand[0] if cand else os.path.join(bld,
+                                                             tag + '_prea.h.gch')
     for key, suffix in R.extra_tus(f):
         fn = '%s%s%s' % (tag, suffix, ext)
         lay['w'][key] = [('%s%s.o' % (tag, suffix)) in index,
@@ -584,6 +612,7 @@ def judge_sub(case, sub, shape, src, bld, refroot, index, make_out, env, res,
     -> list of (mechanism, witness) (not yet minimised)"""
     compiler, tag, lang, items = case['compiler'], sub['tag'], sub['lang'], sub['items']
     runnable = not any(i['opt'] == 'entry_point' for i in items)
+    shlib = any(i['place'] == 'shlib' for i in items)
     same_opt = len(items) == 2 and items[0]['opt'] == items[1]['opt']
     orders = [None] + ([[1, 0]] if same_opt else [])
     refs = []
@@ -623,7 +652,7 @@ def judge_sub(case, sub, shape, src, bld, refroot, index, make_out, env, res,
                       any(ob0.get(k) != ob.get(k) for k in asp))
     keys = ['built', 'run_rc']
     for idx, it in enumerate(items):
-        for k in R.aspects(it, idx, lang):
+        for k in R.aspects(it, idx, lang, shlib):
             if k not in keys:
                 keys.append(k)
 
